@@ -3,6 +3,7 @@ package query
 import (
 	"bytes"
 	"fmt"
+	"math/big"
 	"strings"
 	"sync"
 	"time"
@@ -198,7 +199,21 @@ func serializeFloat(buf *bytes.Buffer, s string) {
 }
 
 func serializeDatetime(buf *bytes.Buffer, t time.Time) {
-	serializeDatetimeFromUnixNano(buf, t.UnixNano())
+	serializeDatetimeFromUnix(buf, t.Unix(), t.Nanosecond())
+}
+
+// serializeDatetimeFromUnix writes the nanoseconds since the epoch. time.Time.UnixNano cannot represent them before
+// the year 1678 and after 2262 (it wraps, so that datetimes 2^64 nanoseconds apart would get the same key).
+func serializeDatetimeFromUnix(buf *bytes.Buffer, sec int64, nsec int) {
+	if -9223372036 < sec && sec < 9223372036 {
+		serializeDatetimeFromUnixNano(buf, sec*1e9+int64(nsec))
+		return
+	}
+
+	n := new(big.Int).Mul(big.NewInt(sec), big.NewInt(1e9))
+	n.Add(n, big.NewInt(int64(nsec)))
+	buf.Write([]byte{91, 68, 93})
+	buf.WriteString(n.String())
 }
 
 func serializeDatetimeFromUnixNano(buf *bytes.Buffer, t int64) {
